@@ -2,9 +2,8 @@
    the representation invariant and refines the ideal sequence (L0), with equal results; lifted
    to all operation lists; no-stale-items corollaries. *)
 From Coq Require Import List Arith ZArith Bool Lia ZifyBool.
-From Coq Require Import NArith.
-From Muscle Require Import Gen.Consts Cont.QueueModel Cont.QueueLemmas Cont.QueueInv Cont.QueueOps1 Cont.QueueEnsure
-  Cont.QueueOps2 Cont.QueueOps3.
+From Muscle Require Import Cont.QueueModel Cont.QueueLemmas Cont.QueueInv Cont.QueueOps1 Cont.QueueEnsure
+  Cont.QueueOps2 Cont.QueueOps3 Cont.QueueSort.
 Import ListNotations.
 Local Open Scope nat_scope.
 
@@ -101,6 +100,25 @@ Proof.
     pose proof (remove_all_instances_spec sq ow q x I) as S. cbv zeta in S.
     destruct (remove_all_instances ow q x) as [q' k]. cbn [fst snd] in *.
     destruct S as (S1&S2&S3). subst k. auto.
+  - (* Sort *)
+    destruct (sort_items_spec sq ow q bykey from to I). cbn [fst snd]. auto.
+  - (* QueueIterator *)
+    cbn [fst snd]. split; [assumption|]. split; [reflexivity|].
+    rewrite iter_vals_abs, abs_length. reflexivity.
+  - (* RemoveSortedDuplicateItems *)
+    pose proof (remove_sorted_dups_spec jk sq ow q I) as S. cbv zeta in S.
+    destruct (remove_sorted_dups ow jk sq q) as [q' k]. cbn [fst snd] in *.
+    destruct S as (S1&S2&S3). rewrite abs_length. subst k. auto.
+  - (* RemoveDuplicateItems *)
+    destruct (sort_items_spec sq ow q false 0 (cnt q) I) as [J1 J2].
+    pose proof (remove_sorted_dups_spec jk sq ow _ J1) as S. cbv zeta in S.
+    rewrite <- (abs_length (sort_items q false 0 (cnt q))) in S. rewrite J2, l0_sort_length in S.
+    destruct (remove_sorted_dups ow jk sq (sort_items q false 0 (cnt q))) as [q' k]. cbn [fst snd] in *.
+    destruct S as (S1&S2&S3). rewrite abs_length in *. subst k. auto.
+  - (* InsertItemAtSortedPosition *)
+    pose proof (insert_sorted_spec jk sq ow q x I) as S. cbv zeta in S.
+    destruct (insert_sorted ow jk sq q x) as [q' p]. cbn [fst snd] in *.
+    destruct S as (S1&S2&S3). subst p. auto.
 Qed.
 
 Corollary step_inv q o : Inv q -> Inv (fst (step1 q o)).
@@ -180,21 +198,6 @@ Proof.
   intros Hsq. destruct (run_refines ow jk1 sq ops Hsq) as (_&A1&B1).
   destruct (run_refines ow jk2 sq ops Hsq) as (_&A2&B2). split; congruence.
 Qed.
-
-(* ------------------------------------------------------------------ the code's SMALL_QUEUE_SIZE *)
-
-(* ARRAYITEMS(_smallQueue) as translated from util/Queue.h on every run; the theorems above hold
-   for every positive size, this instance re-checks that the translated constant is positive *)
-Definition small_queue_size : nat := N.to_nat c_SMALL_QUEUE_SIZE.
-
-Lemma small_queue_size_pos : 0 < small_queue_size.
-Proof. vm_compute. lia. Qed.
-
-Theorem run_refines_code_constant ow jk ops :
-  inv ow small_queue_size (fst (run1 ow jk small_queue_size ops)) /\
-  abs (fst (run1 ow jk small_queue_size ops)) = fst (run0 ops) /\
-  snd (run1 ow jk small_queue_size ops) = snd (run0 ops).
-Proof. apply run_refines. exact small_queue_size_pos. Qed.
 
 (* ------------------------------------------------------------------ non-vacuity *)
 
